@@ -187,6 +187,23 @@ LEVEL_TEXT['C18'] = {'text': 'PyVC contracts on struct.__str__ / union.__str__ /
 LEVEL_TEXT['C19'] = {'text': 'PyVC contracts on the Python encoders with symbolic byte order; CxxVC full-width bit-vector '
                              'proofs of encode_int / decode_int / scalar encoders for little, big and native', 'note': _CXX_NOTE}
 
+PROPS['C09'] = {
+    'modules': [], 'static': ['vf.cxx_check:C09'], 'standins': ['cxx_swap'], 'cxx': True,
+    'trusted': CXX_TRUST + ['raw struct layout: offsetof/sizeof/alignof of the generated packed structs as evaluated by g++ 12 '
+                            '(the subject of C08) is used as the meaning of payload->field'],
+    'assumptions': CXX_ENV + ['the buffer holds a message: counters of limited arrays are within their limits; sizes of nested '
+                              'dynamic messages are ghost values (multiples of their alignment, >= their minimal encoding)',
+                              'each leaf reverses one scalar in place (proved on the header); that the per-schema sequence of '
+                              'leaf visits equals the documented layout is proved per schema; the step from "every scalar is '
+                              'reversed once at its documented place" to "the buffer is the native encoding" is the paper '
+                              'argument of contracts/cxx_swap.py, cross-checked by the bounded stand-in'],
+    'level': 'other', 'technique': CXX_TECH,
+}
+LEVEL_TEXT['C09'] = {'text': 'CxxVC contracts on the raw swap: bit-vector proofs of the scalar swaps, loop contracts (with memory '
+                             'frames) on swap_n_fixed / swap_n_dynamic, cast; per schema of the family, the generated swap<T> makes '
+                             'exactly the leaf visits the documented layout prescribes (addresses, counts, conditions), stays '
+                             'inside the message and returns its end; two recorded findings', 'note': _CXX_NOTE}
+
 PROPS['C18'] = {
     'modules': ['contracts.c18_text', 'contracts.c01_pygen'], 'static': ['vf.cxx_check:C18'], 'standins': ['cxx_codec'], 'cxx': True,
     'trusted': PYVC_TRUST + CXX_TRUST + ['assumed contract of std::ostream: flags and fill sticky, width consumed by the next '
@@ -222,9 +239,6 @@ PROPS['C20'] = {
 }
 
 NOT_APPLICABLE = {
-    'C09': 'needs a byte-addressed memory model of g++-laid-out packed structs walked by generated pointer-cast code; '
-           'no C/C++ deductive verifier is installed and the contract engines here (Python AST; clang AST with scalars only) '
-           'cannot express "the buffer now equals the native encoding" (DESIGN.md section 10)',
 }
 for _p in []:
     if _p not in PROPS:
